@@ -166,6 +166,11 @@ value 0 (`TeleportConfirmPacket` is not registered before 107). -/
 def tcOf (newer : Bool) (sb : Ents) : Option Nat :=
   if newer then idIn sb "TeleportConfirmPacket" else some 0
 
+/-- The id under which a list of known packets has one named "set compression" (the name
+`PlayingReactor.react` tests for first). -/
+def setCompIn (others : List (Nat × String)) : Option Nat :=
+  (others.find? (fun e => e.2 == "set compression")).map (·.1)
+
 /-- The play profile one row determines (`none`: it does not determine one — the three version
 numbers differ, a reacted name without a unique class, reader and writer of the keep-alive id
 disagreeing, an id missing, …). -/
@@ -181,15 +186,15 @@ def profileOfRow (names : List (String × String)) (r : PlayRow) : Option Profil
   if r.sb.1 = r.v ∧ r.pr.v = r.v ∧ r.cb.2.1 = true ∧ r.sb.2.1 = true then
     some { kaCb := ka.2, kaSb := kaSb, posLookCb := pos.2, teleportConfirmSb := tc,
            posLookSb := posLookSb, disconnectCb := disc.2, kaLong := kaLong, newer107 := flags.1,
-           dismount := flags.2, others := othersOf r.cb.2.2 names }
+           dismount := flags.2, others := othersOf r.cb.2.2 names,
+           setCompressionCb := setCompIn (othersOf r.cb.2.2 names) }
   else none
 
 /-- Version ↦ play profile. -/
 def profileOf (v : Nat) : Option Profile := (playRowAt v).bind (profileOfRow Gen.cbPlayNames)
 
 /-- The id under which the profile knows a packet named "set compression". -/
-def setCompOf (P : Profile) : Option Nat :=
-  (P.others.find? (fun e => e.2 == "set compression")).map (·.1)
+def setCompOf (P : Profile) : Option Nat := setCompIn P.others
 
 /-- Each id the reactor reacts to is carried by exactly one class of the clientbound row (so the
 dict `{get_id: class}` holds that class under it whatever the set iteration order), and each id it
@@ -251,13 +256,13 @@ determines a profile that passes `rowOk`; the switches are where they belong. -/
 def playTablesOk (T : Tables) (names : List (String × String)) (rows : List PlayRow) : Bool :=
   rows.map (·.v) == T.supportedProtocols && rows.all (playRowOk names) && playSwitchesOk rows
 
-/-- A play-state "set compression" packet: known to the profile under that name.  The reaction of
-`PlayingReactor.react` to it (`connection.py:798-800`: switch threshold and compression for both
-directions from the next frame on) is NOT part of `Model/PlayWire.lean`; statements about Python
-must exclude it.  Only protocols up to 47 know such a packet (`playSwitchesOk`). -/
-def isSetCompression : SrvPkt → Bool
-  | .other _ name _ => name == "set compression"
-  | _ => false
+/-- A play-state "set compression" packet (`SrvPkt.setCompression`; the profile carries its id as
+`setCompressionCb`, which for the live profiles is the id the table has under that name:
+`setCompOf`).  `Model/PlayWire.lean` models the reaction of `PlayingReactor.react` to it (threshold and
+compression switched for both directions from the next frame on); the ONE-threshold session of
+`Model/SessionWire.lean` does not, so statements about whole sessions exclude it.  Only protocols up
+to 47 know such a packet (`playSwitchesOk`). -/
+def isSetCompression (p : SrvPkt) : Bool := p.isSetCompression
 
 /-! ### login -/
 
